@@ -15,6 +15,34 @@ type Fault struct {
 	Kind string `json:"kind"` // write_error_once | write_error_sticky | short_write | create_error | read_error | truncate
 	Dest string `json:"dest"` // writes: "out" (the command's writer / stdout) or "files" (files created by the command); reads: input name
 	K    int    `json:"k"`    // writes/creates: 1-based ordinal of the call; reads: byte offset
+	// writes: which error the destination reports: "" = ENOSPC, "EPIPE", "EIO", "EDQUOT" (all as *os.PathError, as a
+	// real *os.File returns them) or "plain" (an error value of no particular type, as a wrapped writer may return)
+	Errno string `json:"errno,omitempty"`
+}
+
+var errPlainWrite = errors.New("simulated write failure")
+
+var (
+	errWriteEPIPE  = &os.PathError{Op: "write", Path: "/dev/simulated", Err: syscall.EPIPE}
+	errWriteEIO    = &os.PathError{Op: "write", Path: "/dev/simulated", Err: syscall.EIO}
+	errWriteEDQUOT = &os.PathError{Op: "write", Path: "/dev/simulated", Err: syscall.EDQUOT}
+)
+
+// writeErrnos is the cycle generators take the error of a write fault from.
+var writeErrnos = []string{"", "EPIPE", "EIO", "plain", "EDQUOT"}
+
+func writeErr(errno string) error {
+	switch errno {
+	case "EPIPE":
+		return errWriteEPIPE
+	case "EIO":
+		return errWriteEIO
+	case "EDQUOT":
+		return errWriteEDQUOT
+	case "plain":
+		return errPlainWrite
+	}
+	return errInjectedWrite
 }
 
 var errInjectedWrite = &os.PathError{Op: "write", Path: "/dev/simulated", Err: syscall.ENOSPC}
@@ -46,6 +74,7 @@ type ioEnv struct {
 	inputs                 map[string][]byte
 	chunk                  int
 	stickyOut, stickyFiles bool
+	werrno                 string
 	nClosed                int
 	splitLine, splitCRLF   int
 }
@@ -119,6 +148,7 @@ func (w *simWriter) Write(p []byte) (int, error) {
 			if f.Dest != w.dest || f.K != k {
 				continue
 			}
+			e.werrno = f.Errno
 			switch f.Kind {
 			case "write_error_once":
 				rec.Ret, rec.Err, rec.Fault = 0, true, f.Kind
@@ -153,7 +183,7 @@ func (w *simWriter) Write(p []byte) (int, error) {
 		if rec.Fault == "short_write" {
 			return rec.Ret, io.ErrShortWrite
 		}
-		return rec.Ret, errInjectedWrite
+		return rec.Ret, writeErr(e.werrno)
 	}
 	return rec.Ret, nil
 }
